@@ -25,8 +25,9 @@ RULE = (
     "case = scenario (routed with ACL | one LAN; 1-3 client hosts; max_sessions 1/2/3/100; server password set or "
     "None; power durations 1-2) + op sequence over {connect right/wrong/no password, execute request, query "
     "SELECT/INSERT/DELETE/ENCRYPT/unknown on a live | re-made (clone of an issued id) | never-issued handle, "
-    "disconnect, client uninstall/install, service stop/start/pause/resume/restart/fix, backup, restore, file repair, "
-    "node power off/on (db, backup host), ACL block/unblock (postgres, ftp), ticks}; all sequences of a fixed depth "
+    "disconnect, server-led close, client uninstall/install, client application close/run, client NIC off/on, service "
+    "stop/start/pause/resume/restart/fix, backup, restore, file repair, node power off/on (db, backup host, client "
+    "hosts), ACL block/unblock (postgres, ftp), ticks}; all sequences of a fixed depth "
     "over a reduced alphabet after two preludes, plus Hypothesis sequences to depth 30. Non-trivial = the sequence "
     "has a query on a closed or never-issued handle, or a wrong-password connect followed by a service/node restart "
     "and an accepted right-password connect, or a restore (explicit or at fix completion) attempted while the data "
@@ -36,7 +37,12 @@ ASSUMPTIONS = [
     "node power state, service operating state and the FIXING/OVERWHELMED health flags are read from the simulation "
     "(their state machines are C12/C13/C14); the check asserts the database behaviour given those facts",
     "links have bandwidth 100000 Mbit so that the 5 MB database file never hits link capacity (C18's concern)",
-    "client hosts stay powered on; only the database-client is uninstalled/reinstalled on them",
+    "client host power state, client NIC state and client application state are read from the simulation; an op on a "
+    "client that cannot act (host off, application closed/installing) is skipped, because such a client can send but "
+    "not hear the answer",
+    "a server-led close (IOSoftware.terminate_connection, public, used by the repo's tests; no request exposes it) "
+    "closes the connection in the model whatever the client heard; whether the client's handle object turns inactive "
+    "is taken from the simulation (client side, not the service's behaviour)",
     "SELECT on CORRUPT data and the return value of an unknown query are not asserted (the property and docs leave "
     "them open); a query while the service is OVERWHELMED after genuinely reaching capacity is not asserted either way",
     "a backup that returns False is 'no backup taken'; the property does not say when a backup must succeed",
@@ -108,8 +114,8 @@ def scenario(case: Dict) -> Dict:
                 f"c{i}",
                 f"{ip['c']}{10 + i}",
                 gw=gw["c"],
-                start_up_duration=0,
-                shut_down_duration=0,
+                start_up_duration=dur,
+                shut_down_duration=dur,
                 applications=[{"type": "database-client", "options": {"db_server_ip": ip["db"]}}],
             )
         )
@@ -154,6 +160,7 @@ class Model:
         self.cap = cap
         self.open: set = set()  # ids the service issued and has not closed
         self.issued: set = set()
+        self.srv_closed: set = set()  # ids the service closed on its own initiative
         self.file = "GOOD"
         self.backup: Optional[str] = None  # health of the data when the stored backup was taken
         self.blocked = {"pg": False, "ftp": False}
@@ -198,11 +205,22 @@ def run_case(case: Dict) -> CaseResult:
         return svc.operating_state == ServiceOperatingState.RUNNING
 
     def usable(i):
+        """The client application can act: installed, RUNNING, on a powered-on host."""
         c = client(i)
-        return M.installed[i] and c is not None and c.operating_state == ApplicationOperatingState.RUNNING
+        return (
+            M.installed[i] and c is not None and c.operating_state == ApplicationOperatingState.RUNNING
+            and cnodes[i].operating_state == NodeOperatingState.ON
+        )
+
+    def wire(i):
+        """Frames can travel between client host i and the database host (both directions)."""
+        return (
+            cnodes[i].operating_state == NodeOperatingState.ON and cnodes[i].network_interface[1].enabled
+            and not M.blocked["pg"] and node_on()
+        )
 
     def reach(i):
-        return usable(i) and not M.blocked["pg"] and node_on() and running()
+        return usable(i) and wire(i) and running()
 
     def file_health() -> str:
         f = svc.db_file
@@ -231,7 +249,8 @@ def run_case(case: Dict) -> CaseResult:
         return cut(sim.apply_request, req).status
 
     # ---- oracle pieces ----------------------------------------------------------------------------------------------
-    flags = {"bad_handle": False, "restore_damaged": False, "pw_stage": 0, "pw_restart": False, "sticky": False}
+    flags = {"bad_handle": False, "restore_damaged": False, "pw_stage": 0, "pw_restart": False, "sticky": False,
+             "srv_closed": False, "srv_unheard": False}
 
     def unavailable_guard(full: bool):
         """Snapshot taken before an op issued while the service is stopped / its node is off / the path is blocked."""
@@ -251,7 +270,7 @@ def run_case(case: Dict) -> CaseResult:
                 f"{when}: service holds {len(actual)} connection(s), model {len(M.open)} "
                 f"(extra in service {len(actual - M.open)}, missing {len(M.open - actual)})",
             )
-            M.open = actual
+            M.open = actual - M.srv_closed  # follow the service, except for ids it closed itself: those stay closed
         fh = file_health()
         if fh != M.file:
             res.violate(f"file-health-drift:{what}", f"{when}: database.db is {fh}, model says {M.file}")
@@ -264,7 +283,7 @@ def run_case(case: Dict) -> CaseResult:
         room = len(M.open) < M.cap
         refuse = None
         if not rch:
-            refuse = "blocked" if M.blocked["pg"] and node_on() and running() else "down"
+            refuse = "blocked" if M.blocked["pg"] and node_on() and running() and usable(i) else "down"
         elif not pw_ok:
             refuse = "password"
         elif not room:
@@ -318,7 +337,7 @@ def run_case(case: Dict) -> CaseResult:
         if not handle_ok:
             refuse = "closed-handle"
         elif not rch:
-            refuse = "blocked" if M.blocked["pg"] and node_on() and running() else "down"
+            refuse = "blocked" if M.blocked["pg"] and node_on() and running() and usable(i) else "down"
         elif not auth:
             refuse = klass if klass in ("forged",) else "closed-connection"
         elif health == H.FIXING:
@@ -372,7 +391,7 @@ def run_case(case: Dict) -> CaseResult:
             c.server_password = pw
             M.pw_cfg[i] = pw
             down = not (node_on() and running())
-            guard = unavailable_guard(full=(not node_on()) or M.blocked["pg"]) if (down or M.blocked["pg"]) else None
+            guard = unavailable_guard(full=not wire(i)) if (down or not wire(i)) else None
             health = svc.health_state_actual
             h = cut(c.get_new_connection)
             judge_connect(i, pw, h, health, guard, when, "connect")
@@ -386,7 +405,7 @@ def run_case(case: Dict) -> CaseResult:
             c = client(i)
             had = c.native_connection is not None
             down = not (node_on() and running())
-            guard = unavailable_guard(full=(not node_on()) or M.blocked["pg"]) if (down or M.blocked["pg"]) else None
+            guard = unavailable_guard(full=not wire(i)) if (down or not wire(i)) else None
             health = svc.health_state_actual
             status = request(am.form_request("node-application-execute", {"node_name": f"c{i}", "application_name": "database-client"}))
             if not had:
@@ -406,7 +425,7 @@ def run_case(case: Dict) -> CaseResult:
             _, i, hk, idx, sqlk = op
             i %= n
             if M.installed[i] and not usable(i):
-                res.label("skipped:client-installing")  # it could send but not hear the answer
+                res.label("skipped:client-not-running")  # installing / closed / host off: it could send but not hear the answer
                 return
             pool = M.handles[i]
             if hk != "forged" and not pool:
@@ -429,7 +448,7 @@ def run_case(case: Dict) -> CaseResult:
             if hk == "forged" or cid not in M.open or (hk in ("live", "last") and not handle_ok):
                 flags["bad_handle"] = True
             down = not (node_on() and running())
-            guard = unavailable_guard(full=(not node_on()) or M.blocked["pg"]) if (down or M.blocked["pg"]) else None
+            guard = unavailable_guard(full=not wire(i)) if (down or not wire(i)) else None
             health = svc.health_state_actual
             r = bool(cut(obj.query, SQL[sqlk]))
             judge_query(i, cid, handle_ok, sqlk, r, health, guard, when, hk)
@@ -460,16 +479,24 @@ def run_case(case: Dict) -> CaseResult:
                 res.label("skipped:client-absent")
                 return
             delivered = reach(i)
+            could_act = usable(i)
             status = request(am.form_request("node-application-remove", {"node_name": f"c{i}", "application_name": "database-client"}))
             if client(i) is not None:
-                raise AssertionError(f"harness assumption: uninstall request left the client installed ({status})")
+                res.label(f"skipped:uninstall-{status}")  # e.g. refused on a powered-off host
+                sync_sets(when, "uninstall")
+                return
             for ent in M.handles[i]:
                 if ent["active"]:
-                    ent["active"] = False
-                    if delivered:
-                        M.open.discard(ent["cid"])
-                if ent["obj"].is_active:
-                    res.violate("uninstall-left-handle-active", f"{when}: a handle is still active after uninstall")
+                    if could_act:
+                        ent["active"] = False
+                        if delivered:
+                            M.open.discard(ent["cid"])
+                        if ent["obj"].is_active:
+                            res.violate("uninstall-left-handle-active", f"{when}: a handle is still active after uninstall")
+                    else:
+                        # a client that cannot act (closed / host off) cannot close anything; what its orphaned
+                        # handle objects look like is not the database service's business
+                        ent["active"] = ent["obj"].is_active
             M.installed[i] = False
             M.native[i] = None
             sync_sets(when, "uninstall")
@@ -483,7 +510,9 @@ def run_case(case: Dict) -> CaseResult:
             request(am.form_request("configure-database-client", {"node_name": f"c{i}", "server_ip_address": ip["db"]}))
             c = client(i)
             if c is None:
-                raise AssertionError("harness assumption: install request did not install the database-client")
+                res.label("skipped:install-refused")
+                sync_sets(when, "install")
+                return
             # the fresh client is INSTALLING for its install_duration; ops on it are skipped until it is RUNNING
             M.installed[i] = True
             M.pw_cfg[i] = None
@@ -497,10 +526,54 @@ def run_case(case: Dict) -> CaseResult:
             sync_sets(when, f"svc-{verb}")
         elif k == "power":
             _, host, d = op
+            if host not in (DB, BK):
+                host = f"c{int(host[1:]) % n}"
             request(am.form_request("node-shutdown" if d == "off" else "node-startup", {"node_name": host}))
             if host == DB and d == "off" and flags["pw_stage"] == 1:
                 flags["pw_stage"] = 2
             sync_sets(when, "power")
+        elif k == "srv_close":
+            # the service itself closes a connection (public IOSoftware.terminate_connection, as in
+            # test_database_service_can_terminate_connection); closed is closed whatever the client heard
+            _, i, idx = op
+            i %= n
+            pool = M.handles[i]
+            if not pool:
+                res.label("skipped:no-handle")
+                return
+            ent = pool[-1] if idx == 99 else pool[idx % len(pool)]
+            was_open = ent["cid"] in M.open
+            hearable = usable(i) and wire(i)
+            cut(svc.terminate_connection, ent["cid"])
+            M.open.discard(ent["cid"])
+            M.srv_closed.add(ent["cid"])
+            ent["active"] = ent["obj"].is_active  # whether the client heard the notice is the client's side of it
+            if was_open:
+                flags["srv_closed"] = True
+                if ent["active"]:
+                    flags["srv_unheard"] = True
+            res.label(
+                "srv_close:" + ("not-open" if not was_open else ("client-" + ("reachable" if hearable else "unreachable")
+                                + (":still-active" if ent["active"] else ":told")))
+            )
+            sync_sets(when, "srv_close")
+        elif k == "app":
+            _, i, d = op
+            i %= n
+            c = client(i)
+            if c is None:
+                res.label("skipped:client-absent")
+                return
+            if d == "close":
+                request(am.form_request("node-application-close", {"node_name": f"c{i}", "application_name": "database-client"}))
+            else:
+                cut(c.run)  # no request exposes run(); documented API
+            sync_sets(when, "app")
+        elif k == "nic":
+            _, i, d = op
+            i %= n
+            request(am.form_request("host-nic-disable" if d == "off" else "host-nic-enable", {"node_name": f"c{i}", "nic_num": 1}))
+            sync_sets(when, "nic")
         elif k == "acl":
             _, which, d = op
             if topo != "routed":
@@ -613,6 +686,9 @@ def run_case(case: Dict) -> CaseResult:
 
     nontrivial = flags["bad_handle"] or flags["pw_restart"] or flags["restore_damaged"]
     res.nontrivial = nontrivial
+    for name in ("srv_closed", "srv_unheard"):
+        if flags[name]:
+            res.label(f"had:{name}")
     for name in ("bad_handle", "pw_restart", "restore_damaged"):
         if flags[name]:
             res.label(f"nt:{name}")
@@ -646,6 +722,10 @@ def op_strategy():
         st.tuples(st.just("disconnect"), ci, hidx),
         st.tuples(st.just("uninstall"), ci),
         st.tuples(st.just("install"), ci),
+        st.tuples(st.just("srv_close"), ci, st.sampled_from([0, 1, 2, 99, 99])),
+        st.tuples(st.just("app"), ci, st.sampled_from(["close", "run", "run"])),
+        st.tuples(st.just("nic"), ci, st.sampled_from(["off", "on", "on"])),
+        st.tuples(st.just("power"), st.sampled_from(["c0", "c1", "c2"]), st.sampled_from(["off", "on", "on"])),
         st.tuples(st.just("svc"), st.sampled_from(["stop", "start", "start", "pause", "resume", "resume", "restart", "fix", "fix"])),
         st.just(("backup",)),
         st.just(("restore",)),
@@ -705,6 +785,36 @@ def snippet_strategy():
             + [["restore"], ["query", t[0], "last", 0, "SELECT"], ["connect", t[0], "right"]] + t[2][1]
             + [["restore"], ["query", t[0], "last", 0, "SELECT"]]
         ),
+        # the service closes a connection while its client cannot hear it; the client comes back and uses its handle
+        st.tuples(
+            ci,
+            st.sampled_from(
+                [
+                    ("power", [["tick", 3]], [["tick", 3]]),
+                    ("app", [], []),
+                    ("nic", [], []),
+                    ("acl", [], []),
+                    ("svc", [], []),
+                    ("none", [], []),
+                ]
+            ),
+            dmg,
+        ).map(
+            lambda t: [["connect", t[0], "right"]]
+            + {
+                "power": [["power", f"c{t[0]}", "off"]], "app": [["app", t[0], "close"]], "nic": [["nic", t[0], "off"]],
+                "acl": [["acl", "pg", "block"]], "svc": [["svc", "stop"]], "none": [],
+            }[t[1][0]]
+            + t[1][1] + [["srv_close", t[0], 99]]
+            + {
+                "power": [["power", f"c{t[0]}", "on"]], "app": [["app", t[0], "run"]], "nic": [["nic", t[0], "on"]],
+                "acl": [["acl", "pg", "unblock"]], "svc": [["svc", "start"]], "none": [],
+            }[t[1][0]]
+            + t[1][2]
+            + [["query", t[0], "last", 0, t[2]], ["query", t[0], "last", 0, "SELECT"], ["query", t[0], "clone", 99, "INSERT"]]
+        ),
+        # bring a client back
+        ci.map(lambda i: [["power", f"c{i}", "on"], ["tick", 3], ["app", i, "run"], ["nic", i, "on"]]),
         # close, then use the id again through a fresh handle object
         st.tuples(ci, hidx, dmg).map(
             lambda t: [["connect", t[0], "right"], ["disconnect", t[0], t[1]], ["query", t[0], "clone", t[1], t[2]],
@@ -762,15 +872,21 @@ EXH_ALPHABET = [
     ["query", 0, "clone", 0, "ENCRYPT"],
     ["query", 1, "forged", 0, "DELETE"],
     ["disconnect", 0, 0],
+    ["srv_close", 0, 0],
     ["svc", "stop"],
     ["svc", "start"],
-    ["svc", "fix"],
     ["restore"],
     ["power", DB, "off"],
     ["acl", "pg", "block"],
     ["tick", 2],
 ]
 EXH_EXTRA = [  # thorough tier only
+    ["svc", "fix"],
+    ["power", "c0", "off"],
+    ["power", "c0", "on"],
+    ["app", 0, "close"],
+    ["app", 0, "run"],
+    ["nic", 0, "off"],
     ["power", DB, "on"],
     ["connect", 0, "none"],
     ["execute", 0],
